@@ -230,19 +230,19 @@ condition is what F13 broke: the `Type::Process` entry that only the index uses 
 
 theorem compat_rename {ρ τ : Nat → Nat} {T T' : Table} (E : Embeds ρ τ T T') (fuel a b : Nat) :
     isCompatible T' fuel (ρ a) (ρ b) = isCompatible T fuel a b := by
-  have := checkRelV_map E Variant.current .all fuel [] [] a b
-  simp only [mapAsm, List.map_nil] at this
+  have := checkRelV_map E Variant.current .all fuel [] {} a b
+  simp only [mapAsm, List.map_nil, Stk.map] at this
   unfold isCompatible checkRel
   rw [this]
-  cases checkRelV Variant.current T .all fuel [] [] a b <;> rfl
+  cases checkRelV Variant.current T .all fuel [] {} a b <;> rfl
 
 theorem overlap_rename {ρ τ : Nat → Nat} {T T' : Table} (E : Embeds ρ τ T T') (fuel a b : Nat) :
     typesOverlap T' fuel (ρ a) (ρ b) = typesOverlap T fuel a b := by
-  have := checkRelV_map E Variant.current .any fuel [] [] a b
-  simp only [mapAsm, List.map_nil] at this
+  have := checkRelV_map E Variant.current .any fuel [] {} a b
+  simp only [mapAsm, List.map_nil, Stk.map] at this
   unfold typesOverlap checkRel
   rw [this]
-  cases checkRelV Variant.current T .any fuel [] [] a b <;> rfl
+  cases checkRelV Variant.current T .any fuel [] {} a b <;> rfl
 
 /-- **Renaming invariance of the runtime test.** `c'` is the tag `c` in the new numbering (tuple,
 function, builtin, resource ids renamed in any way); if its type entry is the image of the old one,
